@@ -127,6 +127,53 @@ pub fn seen_states(actions: &ActionsData) -> Vec<(usize, ActionState)> {
 }
 
 // ---------------------------------------------------------------------------------------------
+// scenario entity slots <-> real entities; gamepad ids -> entities
+
+#[derive(Resource, Default)]
+pub struct Slots {
+    pub ents: HashMap<i64, Entity>,
+    pub pads: HashMap<i64, Entity>,
+    /// entities that used to occupy a slot (despawned): events still in flight for them are reported under it
+    pub old: HashMap<Entity, i64>,
+}
+impl Slots {
+    pub fn slot_of(&self, e: Entity) -> i64 {
+        self.ents.iter().find(|(_, &v)| v == e).map(|(&k, _)| k).or_else(|| self.old.get(&e).copied()).unwrap_or(-1)
+    }
+}
+
+/// C02: operations requested from inside an observer of an action event; each fires once
+pub struct Reaction {
+    pub aid: usize,
+    pub kind: &'static str,
+    pub slot: i64, // -1: any entity
+    pub op: Sx,
+    pub fired: bool,
+}
+#[derive(Resource, Default)]
+pub struct Reactions(pub Vec<Reaction>);
+/// how an op is applied to the world (lives in app.rs; stored here to keep the modules acyclic)
+#[derive(Resource, Clone, Copy)]
+pub struct ReactHook(pub fn(&mut World, &Sx));
+
+fn fire(aid: usize, kind: &'static str, target: Entity, commands: &mut Commands, reacts: Option<ResMut<Reactions>>, slots: Option<Res<Slots>>) {
+    let (Some(mut reacts), Some(slots)) = (reacts, slots) else { return };
+    let slot = slots.slot_of(target);
+    for r in reacts.0.iter_mut() {
+        if !r.fired && r.aid == aid && r.kind == kind && (r.slot == -1 || r.slot == slot) {
+            r.fired = true;
+            let op = r.op.clone();
+            // issued through the observer's Commands: runs right after the triggering command
+            commands.queue(move |world: &mut World| {
+                let hook = *world.resource::<ReactHook>();
+                (hook.0)(world, &op);
+            });
+            break;
+        }
+    }
+}
+
+// ---------------------------------------------------------------------------------------------
 // Observers
 
 pub fn register_observers(world: &mut World) {
@@ -137,25 +184,30 @@ fn register_for<A: InputAction>(world: &mut World, aid: usize)
 where
     A::Output: Into<ActionValue>,
 {
-    world.add_observer(move |t: Trigger<Started<A>>, log: Res<SharedLog>| {
+    world.add_observer(move |t: Trigger<Started<A>>, log: Res<SharedLog>, mut commands: Commands, reacts: Option<ResMut<Reactions>>, slots: Option<Res<Slots>>| {
         let e = t.event();
         log.push(LogItem::Ev { target: t.entity(), aid, kind: "EStarted", value: e.value.into(), state: e.state, elapsed: None, fired: None });
+        fire(aid, "EStarted", t.entity(), &mut commands, reacts, slots);
     });
-    world.add_observer(move |t: Trigger<Ongoing<A>>, log: Res<SharedLog>| {
+    world.add_observer(move |t: Trigger<Ongoing<A>>, log: Res<SharedLog>, mut commands: Commands, reacts: Option<ResMut<Reactions>>, slots: Option<Res<Slots>>| {
         let e = t.event();
         log.push(LogItem::Ev { target: t.entity(), aid, kind: "EOngoing", value: e.value.into(), state: e.state, elapsed: Some(e.elapsed_secs), fired: None });
+        fire(aid, "EOngoing", t.entity(), &mut commands, reacts, slots);
     });
-    world.add_observer(move |t: Trigger<Fired<A>>, log: Res<SharedLog>| {
+    world.add_observer(move |t: Trigger<Fired<A>>, log: Res<SharedLog>, mut commands: Commands, reacts: Option<ResMut<Reactions>>, slots: Option<Res<Slots>>| {
         let e = t.event();
         log.push(LogItem::Ev { target: t.entity(), aid, kind: "EFired", value: e.value.into(), state: e.state, elapsed: Some(e.elapsed_secs), fired: Some(e.fired_secs) });
+        fire(aid, "EFired", t.entity(), &mut commands, reacts, slots);
     });
-    world.add_observer(move |t: Trigger<Canceled<A>>, log: Res<SharedLog>| {
+    world.add_observer(move |t: Trigger<Canceled<A>>, log: Res<SharedLog>, mut commands: Commands, reacts: Option<ResMut<Reactions>>, slots: Option<Res<Slots>>| {
         let e = t.event();
         log.push(LogItem::Ev { target: t.entity(), aid, kind: "ECanceled", value: e.value.into(), state: e.state, elapsed: Some(e.elapsed_secs), fired: None });
+        fire(aid, "ECanceled", t.entity(), &mut commands, reacts, slots);
     });
-    world.add_observer(move |t: Trigger<Completed<A>>, log: Res<SharedLog>| {
+    world.add_observer(move |t: Trigger<Completed<A>>, log: Res<SharedLog>, mut commands: Commands, reacts: Option<ResMut<Reactions>>, slots: Option<Res<Slots>>| {
         let e = t.event();
         log.push(LogItem::Ev { target: t.entity(), aid, kind: "ECompleted", value: e.value.into(), state: e.state, elapsed: Some(e.elapsed_secs), fired: Some(e.fired_secs) });
+        fire(aid, "ECompleted", t.entity(), &mut commands, reacts, slots);
     });
 }
 
